@@ -491,13 +491,40 @@ struct Opcode {
 // a64::Assembler - Signature Utilities
 // ====================================
 
+// Long (widening) and narrow (narrowing) instructions pair a narrow operand with a wide one. The wide operand has
+// the next element type (B->H, H->S, S->D, D->Q) in a 128-bit vector, or it is the next scalar register type when
+// the narrow operand is a scalar (B->H, H->S, S->D). Pairwise long instructions (SADDLP, UADALP, ...) add adjacent
+// elements, so their wide operand has the register size of the narrow one. A plain D register stands for `.1D`.
+static inline bool match_wide_narrow(const Operand_& wide, const Operand_& narrow, bool pairwise) noexcept {
+  if (!wide.is_reg() || !narrow.is_reg() || !wide.as<Reg>().is_vec() || !narrow.as<Reg>().is_vec())
+    return false;
+
+  const Vec& w = wide.as<Vec>();
+  const Vec& n = narrow.as<Vec>();
+
+  if (!n.has_element_type())
+    return !w.has_element_type() && uint32_t(w.reg_type()) == uint32_t(n.reg_type()) + 1u;
+
+  uint32_t narrow_element = uint32_t(n.element_type());
+  if (narrow_element > uint32_t(VecElementType::kD))
+    return false;
+
+  uint32_t wide_element = narrow_element < uint32_t(VecElementType::kD) ? narrow_element + 1u : uint32_t(VecElementType::kNone);
+  bool is_plain_d = w.is_vec64() && !w.has_element_type() && wide_element == uint32_t(VecElementType::kD);
+
+  if (uint32_t(w.element_type()) != wide_element && !is_plain_d)
+    return false;
+
+  return pairwise ? w.reg_type() == n.reg_type() && wide_element != uint32_t(VecElementType::kNone) : w.is_vec128();
+}
+
 // TODO: [ARM] Deprecate match_signature.
 static inline bool match_signature(const Operand_& o0, const Operand_& o1, uint32_t inst_flags) noexcept {
   if (!(inst_flags & (InstDB::kInstFlagLong | InstDB::kInstFlagNarrow)))
     return o0.signature() == o1.signature();
 
-  // TODO: [ARM] Something smart to validate this.
-  return true;
+  bool pairwise = (inst_flags & InstDB::kInstFlagPair) != 0;
+  return (inst_flags & InstDB::kInstFlagLong) ? match_wide_narrow(o0, o1, pairwise) : match_wide_narrow(o1, o0, pairwise);
 }
 
 static inline bool match_signature(const Operand_& o0, const Operand_& o1, const Operand_& o2, uint32_t inst_flags) noexcept {
@@ -4480,7 +4507,8 @@ Case_BaseLdurStur:
         goto InvalidInstruction;
 
       if (isign4 == ENC_OPS3(Reg, Reg, Imm) && op_data.immediate_op) {
-        if (!match_signature(o0, o1, inst_flags))
+        // Long/narrow shifts are not validated here (only the significant operand selects the encoding).
+        if (!(inst_flags & (InstDB::kInstFlagLong | InstDB::kInstFlagNarrow)) && !check_signature(o0, o1))
           goto InvalidInstruction;
 
         if (o2.as<Imm>().value_as<uint64_t>() > 63)
